@@ -64,6 +64,34 @@ func TestVerifReplay(t *testing.T) {
 			}
 		}
 	}
+	// iteration takes a snapshot of each bin: updates made by the callback must not
+	// make one pass yield a peer twice
+	for name, iter := range map[string]func(*PSlice, func(boson.Address, uint8) (bool, bool, error)) error{
+		"EachBin":    func(s *PSlice, f func(boson.Address, uint8) (bool, bool, error)) error { return s.EachBin(f) },
+		"EachBinRev": func(s *PSlice, f func(boson.Address, uint8) (bool, bool, error)) error { return s.EachBinRev(f) },
+	} {
+		for _, trio := range [][3]int{{0, 1, 2}, {3, 4, 3}} {
+			if trio[0] == trio[2] { continue }
+			s := New(int(boson.MaxBins), base)
+			s.Add(A[trio[0]]); s.Add(A[trio[1]]); s.Add(A[trio[2]])
+			bin := s.BinPeers(0)
+			if len(bin) != 3 { bin = s.BinPeers(1) }
+			if len(bin) != 3 { continue }
+			first := true
+			seen := map[string]int{}
+			_ = iter(s, func(p boson.Address, _ uint8) (bool, bool, error) {
+				seen[p.String()]++
+				if first {
+					first = false
+					s.Remove(bin[2]); s.Remove(bin[1]); s.Add(bin[2])
+				}
+				return false, false, nil
+			})
+			for k, n := range seen {
+				if n > 1 { t.Logf("REPLAY-CONFIRMED %s: one pass yielded peer %s %d times after remove/remove/add inside the callback", name, k[:8], n); return }
+			}
+		}
+	}
 	t.Logf("not reproduced")
 }
 '''
